@@ -346,7 +346,11 @@ pub fn gen_grammar_idiom(rng: &mut Rng, cfg: &GenCfg, k: usize) -> Vec<Rule> {
             let mid = if rng.chance(1, 2) { s(rng) } else { Expr::Opt(bx(s(rng))) };
             Expr::Seq(bx(Expr::Push(bx(s(rng)))), bx(Expr::Seq(bx(pred), bx(Expr::Seq(bx(mid), bx(reader)))))) }
         3 => { let n = rng.range(1, 4); let pool = ["a", "b", "c", "ab", "ac", "ba", "bc"];
-            let mut alts: Vec<Expr> = (0..n).map(|_| { let t = rng.pick(&pool[..]).to_string(); if rng.chance(1, 3) { Expr::Insens(t) } else { Expr::Str(t) } }).collect();
+            // every other grammar of this idiom has four or five case-sensitive terminators of different lengths (the general
+            // search path of skip_until, where a short terminator may sit in the last bytes of the input)
+            let fixed: Option<&[&str]> = match variant % 4 { 0 => Some(&["ab", "c", "ba", "bc"]), 2 => Some(&["abc", "b", "ca", "cb", "x"]), _ => None };
+            let mut alts: Vec<Expr> = match fixed { Some(ts) => ts.iter().map(|t| Expr::Str(t.to_string())).collect(),
+                None => (0..n).map(|_| { let t = rng.pick(&pool[..]).to_string(); if rng.chance(1, 3) { Expr::Insens(t) } else { Expr::Str(t) } }).collect() };
             let mut e = alts.pop().unwrap(); while let Some(x) = alts.pop() { e = Expr::Choice(bx(x), bx(e)); }
             let nm = format!("sk{}", rules.len());
             let unit = Expr::Seq(bx(Expr::NegPred(bx(e.clone()))), bx(Expr::Ident("ANY".into())));
